@@ -683,7 +683,8 @@ func (self *Analyzer) assignExpression(node pAst.AssignExpression) ast.AnalyzedA
 		resultType = ast.NewNeverType()
 	}
 
-	if err := self.TypeCheck(rhs.Type(), lhs.Type(), TypeCheckOptions{}); err != nil {
+	// (like an annotated `let`: function values are fine unless a value of type `any` would have to be cast)
+	if err := self.TypeCheck(rhs.Type(), lhs.Type(), TypeCheckOptions{AllowFunctionTypes: !self.CheckAny(rhs.Type())}); err != nil {
 		self.diagnostics = append(self.diagnostics, err.GotDiagnostic)
 		if err.ExpectedDiagnostic != nil {
 			self.diagnostics = append(self.diagnostics, *err.ExpectedDiagnostic)
